@@ -120,3 +120,57 @@ def _cb_uphill(pp, sx, sy, sz, x, L):
 
 
 NATIVE.update({"cb_uphill": _cb_uphill})
+
+
+def _ewald_rate_ref(separation, direction, length, alpha=2.9, position_cutoff=3, fourier_cutoff=7):
+    """-dU/ds_direction for U = sum_n 1 / |s + n L| (tin-foil Ewald sum) for unit charges, computed with an Ewald
+    parameter and cut-offs DIFFERENT from the ones of the code under test: agreement means convergence and
+    alpha-independence of the code's value."""
+    import math
+    s = [float(c) for c in separation]
+    a = alpha / length
+    rate = 0.0
+    rng = range(-position_cutoff, position_cutoff + 1)
+    for nx in rng:
+        for ny in rng:
+            for nz in rng:
+                v = (s[0] + nx * length, s[1] + ny * length, s[2] + nz * length)
+                r_sq = v[0] * v[0] + v[1] * v[1] + v[2] * v[2]
+                r = math.sqrt(r_sq)
+                rate += v[direction] * (2.0 * a / math.sqrt(math.pi) * math.exp(-a * a * r_sq) + math.erfc(a * r) / r) / r_sq
+    rng = range(-fourier_cutoff, fourier_cutoff + 1)
+    for kx in rng:
+        for ky in rng:
+            for kz in rng:
+                k_sq = kx * kx + ky * ky + kz * kz
+                if k_sq == 0:
+                    continue
+                phase = 2.0 * math.pi / length * (kx * s[0] + ky * s[1] + kz * s[2])
+                rate += 2.0 / (length * length) * (kx, ky, kz)[direction] / k_sq * math.exp(-math.pi ** 2 * k_sq / alpha ** 2) \
+                    * math.sin(phase)
+    return rate
+
+
+def _ewald_ok(pot, velocity, separation, c1, c2, result):
+    """result == c1 c2 speed * (reference rate along the direction of motion), and periodic in every direction."""
+    L = float(pot._system_length)
+    d = [i for i, v in enumerate(velocity) if v != 0.0][0]
+    speed = float(velocity[d])
+    ref = c1 * c2 * speed * _ewald_rate_ref(separation, d, L)
+    tol = 1e-6 * (abs(ref) + abs(c1 * c2 * speed) / (L * L))
+    if abs(result - ref) > tol:
+        return False
+    for e in range(3):
+        shifted = list(separation)
+        shifted[e] = shifted[e] - L if shifted[e] > 0 else shifted[e] + L
+        # the image one box further (outside the minimum-image cube: the wrapper may assert the range) - skip on assertion
+        try:
+            other = pot.derivative(list(velocity), shifted, c1, c2)
+        except AssertionError:
+            continue
+        if abs(other - result) > 10 * tol:
+            return False
+    return True
+
+
+NATIVE.update({"ewald_ok": _ewald_ok})
